@@ -11,13 +11,15 @@ V = "verus"
 
 
 def H(name, unit, serves, strength="F", tier="quick", crate="core", fns=(), timeout=600, cost=10, args=(), note=""):
+    # generous wall-clock limits (3x the value tuned on an idle 16-core machine, at least 30 min): a timeout is reported as
+    # undecided (exit 2), never as a violation, but on the unchanged tree it would still make the check look broken
     return dict(engine=K, name=name, unit=unit, serves=list(serves), strength=strength, tier=tier, crate=crate,
-                fns=list(fns), timeout=timeout, cost=cost, args=list(args), note=note)
+                fns=list(fns), timeout=max(3 * timeout, 1800), cost=cost, args=list(args), note=note)
 
 
 def VU(name, serves, fns, tier="quick", timeout=300, note="", args=()):
     return dict(engine=V, name=name, unit=name, serves=list(serves), strength="U", tier=tier, fns=list(fns),
-                timeout=timeout, note=note, args=list(args))
+                timeout=max(3 * timeout, 900), note=note, args=list(args))
 
 
 HARNESSES = [
